@@ -160,7 +160,23 @@ def decode_samples(raw: bytes, nbits: int, nchans: int) -> np.ndarray:
 
 
 def default_items(nbits, nchans, fch1=1400.0, foff=-1.0, tsamp=1e-3, tstart=55000.0,
-                  source_name="VERIF", rawdatafile=None, extra=None):
+                  source_name="VERIF", rawdatafile=None, extra=None, variant=0):
+    """variant 0: the usual full key set; 1: only the keys a reader cannot do without (plus rawdatafile so that header
+    lengths can differ between files); 2: full set in another order with further optional keys."""
+    if variant == 1:
+        items = [("nchans", nchans), ("tsamp", tsamp)]
+        if rawdatafile is not None:
+            items.append(("rawdatafile", rawdatafile))
+        items += [("fch1", fch1), ("nbits", nbits), ("tstart", tstart), ("foff", foff)]
+        return items + (list(extra) if extra else [])
+    if variant == 2:
+        items = [("nifs", 1), ("nbeams", 13), ("ibeam", 7), ("foff", foff), ("fch1", fch1), ("refdm", 0.0),
+                 ("nchans", nchans), ("nbits", nbits), ("signed", 0), ("tsamp", tsamp), ("tstart", tstart),
+                 ("src_dej", 101112.5), ("src_raj", 51617.25), ("source_name", source_name + " two"),
+                 ("machine_id", 0), ("telescope_id", 64), ("data_type", 1)]
+        if rawdatafile is not None:
+            items.insert(3, ("rawdatafile", rawdatafile))
+        return items + (list(extra) if extra else [])
     items = [
         ("telescope_id", 4),
         ("machine_id", 10),
